@@ -4,7 +4,8 @@
 //	vsim replay <file>                         re-execute a replay file (no PRNG involved)
 //
 // Environment: VERIF_SEED (default 1), VERIF_TIER, VERIF_REPO (default /repo),
-// VERIF_SCRATCH (default /var/tmp), VERIF_WORKERS, VERIF_SCENARIOS, VERIF_KEEP.
+// VERIF_SCRATCH (default /var/tmp), VERIF_WORKERS, VERIF_SCENARIOS, VERIF_KEEP,
+// VERIF_MINIMISE=0 (report violations as found, without shrinking: regression runs over stored changes).
 // Exit status: 0 property held on everything explored; 1 violation (with a
 // `VIOLATION property=<id> replay=<path>` line); 2 the machinery itself failed.
 package main
